@@ -46,6 +46,34 @@ def gen(rng, n_in=None, n_ops=None):
         ops.append((v, line, uses)); avail.append(v)
     return {'decl': decl, 'corr': corr, 'ops': ops, 'inputs': inputs}
 
+def gen_c(rng):
+    """complex straight-line programs: 2-3 uncertain complex inputs (70 % circular: one scalar uncertainty, so that the real
+    and imaginary dofs of every derived number coincide), finite and infinite dof, optionally one real input; + - * /,
+    scaling by plain real / complex numbers, exp, sqrt, conjugate"""
+    n_in = rng.randint(2, 3); decl, inputs = [], []
+    for i in range(n_in):
+        z = complex(round(rng.uniform(0.5, 3.0), 3), round(rng.uniform(-3.0, 3.0), 3))
+        u = repr(round(rng.uniform(0.05, 0.6), 3)) if rng.random() < 0.7 else \
+            repr((round(rng.uniform(0.05, 0.6), 3), round(rng.uniform(0.05, 0.6), 3)))
+        decl.append('z%d = ucomplex(%r, %s, %s)' % (i, z, u, rng.choice(['inf', '4', '7.5', '5', '5']))); inputs.append('z%d' % i)
+    if rng.random() < 0.4:
+        decl.append('x9 = ureal(%r, %r, %s)' % (round(rng.uniform(0.5, 3.0), 3), round(rng.uniform(0.05, 0.6), 3), rng.choice(['inf', '6'])))
+        inputs.append('x9')
+    ops = []; avail = list(inputs)
+    for j in range(rng.randint(2, 6)):
+        v = 't%d' % j; k = rng.random()
+        if k < 0.25:
+            f = rng.choice(['exp', 'sqrt', 'conjugate']); a = rng.choice(avail)
+            line = '%s = exp(%s / 8)' % (v, a) if f == 'exp' else '%s = %s(%s)' % (v, f, a); uses = [a]
+        elif k < 0.5:
+            a = rng.choice(avail); c = rng.choice(['2.5', '(1.5+2j)', '(-0.5j)', '(3+0j)'])      # no unit parts: x*(1+2j) reuses x as a component (known defect family)
+            line = rng.choice(['%s = %s * %s', '%s = %s / %s']) % (v, a, c) if rng.random() < 0.6 else '%s = %s * %s' % (v, c, a); uses = [a]
+        else:
+            o = rng.choice(['+', '-', '*', '/']); a = rng.choice(avail); b = rng.choice(avail)
+            line = '%s = %s %s %s' % (v, a, o, b); uses = [a, b]
+        ops.append((v, line, uses)); avail.append(v)
+    return {'decl': decl, 'corr': [], 'ops': ops, 'inputs': inputs, 'complex': True}
+
 def run(lines, ctx=21):
     new_context(ctx)
     ns = {}
